@@ -10,7 +10,10 @@ Scenario:  <text 0|1> <MACRO> operands...      (text=1: the _TEXT variant of the
   MEMCMP_EQUAL CHECK_EQUAL_C_MEMCMP <bytes|~> <bytes|~> <n>
   BITS_EQUAL CHECK_EQUAL_C_BITS <te> <ze> <ta> <za> <mask>
   CHECK_THROWS <0 nothing | 1 expected type | 2 other type>        FAIL FAIL_TEST FAIL_C FAIL_TEXT_C
-Observation: <failures> <checks counted> <statement after the check executed 0|1>"""
+  operand EXPRESSIONS WITH SIDE EFFECTS (both of type t; script = <count >= 1> value... = what the 1st, 2nd, ... evaluation yields, the last repeats):
+  SE_CHECK_EQUAL <t> <script expected> <script actual>    SE_CHECK_EQUAL_ZERO <t> <script actual>    SE_CHECK_COMPARE <op> <t> <script first> <script second>
+Observation: <failures> <checks counted> <statement after the check executed 0|1>
+  (SE_ kinds: + <evaluations of the first operand expression> <of the second>; compared with the model, not read by the oracle)"""
 import itertools, struct
 from vlib import tz, tb
 ID = "C03"
@@ -21,7 +24,10 @@ RULE = ("per macro: operand type pairs (10 integer types) x boundary lattice {mi
         "2^31-1..2^31+1,2^32-1..2^32+1,2^63-1,2^63,2^64-1} with the second operand equal / +-1 / congruent modulo 2^8,2^16,2^32,2^64 "
         "(the cast boundaries); doubles: all pairs of the class representatives x tolerances + pairs whose difference is at, one ulp below "
         "and above the tolerance; strings over NULL/empty/case pairs/high bytes/embedded NUL x lengths 0..len+2 and SIZE_MAX; memory blocks "
-        "with the first difference at every position, NULL x length 0; masks x byte counts. quick samples the lattice products, thorough "
+        "with the first difference at every position, NULL x length 0; masks x byte counts. Operand expressions with side effects "
+        "(CHECK_EQUAL / _TEXT / _ZERO, CHECK_COMPARE x 6 operators, 10 types): scripts over two neighbouring lattice values where one or both "
+        "operands change at the 2nd..5th evaluation -- first comparison unequal and every later one equal, first equal and later unequal, "
+        "crossing, constant -- plus random scripts of length 1..6 over three values. quick samples the lattice products, thorough "
         "enumerates them. non-trivial = any check whose outcome depends on its operands (everything except FAIL*)")
 ASSUMPTIONS = ["LP64 data model, plain char signed (x86-64 g++)", "operands are in range of their declared C type",
                "memory blocks are at least as long as the length given to the check (the caller's contract)",
@@ -298,8 +304,69 @@ def gen_bits(out, rng, n):
                         out.append("%s %s %s %s %x" % (txt(rng, k, k != "BITS_EQUAL" or True), k, op(te, x), op(ta, y), m))
 
 
+def se_line(text, kind, t, se, sa, o=None):
+    sc = lambda v: "%x %s" % (len(v), " ".join(tz(z) for z in v))
+    if kind == "SE_CHECK_EQUAL_ZERO":
+        return "%s %s %x %s" % (text, kind, t, sc(sa))
+    if kind == "SE_CHECK_COMPARE":
+        return "%s %s %x %x %s %s" % (text, kind, o, t, sc(se), sc(sa))
+    return "%s %s %x %s %s" % (text, kind, t, sc(se), sc(sa))
+
+
+def se_parse(s):
+    """-> (text, kind, op|None, t, script_e|None, script_a)"""
+    t = s.split()
+    k = t[1]
+    i = 2
+    o = None
+    if k == "SE_CHECK_COMPARE":
+        o = int(t[i], 16)
+        i += 1
+    ty = int(t[i], 16)
+    i += 1
+
+    def sc(i):
+        n = int(t[i], 16)
+        return [int(x, 16) for x in t[i + 1:i + 1 + n]], i + 1 + n
+    se = None
+    if k != "SE_CHECK_EQUAL_ZERO":
+        se, i = sc(i)
+    sa, i = sc(i)
+    return t[0], k, o, ty, se, sa
+
+
+def gen_se(out, rng, tier):
+    """operands whose value changes between evaluations: the verdict belongs to the FIRST comparison"""
+    kinds = [("SE_CHECK_EQUAL", None), ("SE_CHECK_EQUAL_ZERO", None)] + [("SE_CHECK_COMPARE", o) for o in range(6)]
+    for kind, o in kinds:
+        for t in range(10):
+            pairs = []
+            if kind == "SE_CHECK_EQUAL_ZERO":
+                pairs = [(0, v) for v in ([1, HI[t]] + ([-1, LO[t]] if SG[t] else []))]
+            else:
+                us = LAT[t] if tier == "thorough" else rng.sample(LAT[t], 2)
+                for u in us:
+                    vs = [v for v in aliases(u, t) if v != u]
+                    pairs.append((u, rng.choice(vs)))
+            for u, v in pairs:
+                cases = [([u], [u]), ([u], [v]), ([u, v], [v, u]), ([u, v], [u, u, v]), ([u, u, v], [v, u]), ([v, u], [u])]
+                for j in (1, 2, 3, 4):
+                    cases.append(([u], [v] * j + [u]))        # unequal for the first j comparisons of actual, equal afterwards
+                    cases.append(([u], [u] * j + [v]))        # equal first, unequal later
+                    cases.append(([v] * j + [u], [u]))        # the same with the first operand changing
+                    cases.append(([u] * j + [v], [u]))
+                w = rng.choice(LAT[t])
+                for _ in range(3 if tier == "quick" else 12):
+                    cases.append(([rng.choice((u, v, w)) for _ in range(rng.randrange(1, 7))], [rng.choice((u, v, w)) for _ in range(rng.randrange(1, 7))]))
+                for se, sa in cases:
+                    if kind == "SE_CHECK_EQUAL_ZERO" and se != [u] and sa == [u]:
+                        continue                               # the first operand is the literal 0
+                    out.append(se_line("1" if rng.random() < 0.3 else "0", kind, t, se, sa, o))
+
+
 def generate(tier, rng):
     out = []
+    gen_se(out, rng, tier)
     for w in (0, 1, 2):
         out.append("0 CHECK_THROWS %x" % w)
     for k in ("FAIL", "FAIL_TEST", "FAIL_C", "FAIL_TEXT_C"):
@@ -329,6 +396,16 @@ def nontrivial(s):
 
 def classify(s):
     t = s.split()
+    if t[1].startswith("SE_"):
+        text, k, o, ty, se, sa = se_parse(s)
+        se = se or [0]
+        n = max(len(se), len(sa), 5)
+        rd = lambda v, i: v[i] if i < len(v) else v[-1]
+        cmp_ = (lambda a, b: a == b) if o is None else [lambda a, b: a < b, lambda a, b: a <= b, lambda a, b: a > b, lambda a, b: a >= b, lambda a, b: a == b, lambda a, b: a != b][o]
+        first = cmp_(se[0], sa[0])
+        later = set(cmp_(rd(se, i), rd(sa, i)) for i in range(1, n))
+        return [k + ("_TEXT" if text == "1" else ""), "side effects: first comparison %s, later comparisons %s" %
+                ("holds" if first else "false", "the same" if later <= {first} else ("all opposite" if later == {not first} else "mixed"))]
     labels = [t[1] + ("_TEXT" if t[0] == "1" else "")]
     if t[1] in K2_CPP + K2_C or t[1] == "CHECK_COMPARE":
         o = 3 if t[1] == "CHECK_COMPARE" else 2
@@ -339,6 +416,9 @@ def classify(s):
 def signature(s, o):
     t = s.split()
     k = t[1]
+    if k.startswith("SE_"):
+        _, k, op, ty, se, sa = se_parse(s)
+        return "%s%s operand type %s (operand expressions with side effects)" % (k, "" if op is None else " op %x" % op, TY[ty])
     if k in K2_CPP + K2_C:
         return "%s operand types %s,%s" % (k, TY[int(t[2], 16)], TY[int(t[4], 16)])
     if k == "CHECK_COMPARE":
@@ -359,6 +439,32 @@ def signature(s, o):
 def shrink(s):
     t = s.split()
     k = t[1]
+    if k.startswith("SE_"):
+        text, k, op, ty, se, sa = se_parse(s)
+        if text == "1":
+            yield se_line("0", k, ty, se, sa, op)
+        for which in (0, 1):
+            v = (se, sa)[which]
+            if v is None:
+                continue
+            for j in range(len(v) - 1, -1, -1):          # drop one evaluation's value
+                if len(v) > 1:
+                    w = v[:j] + v[j + 1:]
+                    yield se_line(text, k, ty, w if which == 0 else se, w if which == 1 else sa, op)
+            for j in range(len(v)):                       # smaller values
+                for small in (0, 1):
+                    if v[j] != small and abs(v[j]) > small:
+                        w = v[:j] + [small] + v[j + 1:]
+                        yield se_line(text, k, ty, w if which == 0 else se, w if which == 1 else sa, op)
+        for x in sorted(set((se or []) + sa), key=abs, reverse=True):      # one value renamed everywhere
+            for small in (0, 1, 2):
+                if abs(x) > small and LO[ty] <= small <= HI[ty]:
+                    rn = lambda v: None if v is None else [small if z == x else z for z in v]
+                    yield se_line(text, k, ty, rn(se), rn(sa), op)
+        if ty != 4:
+            if all(LO[4] <= z <= HI[4] for z in (se or []) + sa):
+                yield se_line(text, k, 4, se, sa, op)
+        return
     if k in ("STRCMP_EQUAL", "STRCMP_NOCASE_EQUAL", "STRCMP_CONTAINS", "STRCMP_NOCASE_CONTAINS", "CHECK_EQUAL_C_STRING", "STRNCMP_EQUAL"):
         for i in (2, 3):
             if t[i].startswith("$"):
@@ -375,7 +481,10 @@ LEVEL_TEXT = ("Machine-checked (Coq) theorems over an executable model of every 
               "content with NULL rules, blocks with the zero-length rule, masked bits, doubles with NaN/infinity/tolerance rules proved against the "
               "reals), counted exactly once except a passing CHECK_COMPARE. Tied to the code by running the real macros (C++ and C translation "
               "units) inside a fixture on an exhaustive boundary lattice and comparing failure count / check count / continuation with the "
-              "extracted model and the extracted model-free spec.")
+              "extracted model and the extracted model-free spec. Operand expressions with side effects (scripts of the values successive "
+              "evaluations yield) in the macros that read an operand more than once (CHECK_EQUAL family, CHECK_COMPARE): the model follows the "
+              "macro's evaluation order; proved: the verdict is that of the first comparison whatever later reads give; the harness passes "
+              "operands that pop a scripted queue and also compares the number of evaluations with the model.")
 LEVEL_NOTE = ("Trusted: Coq kernel, extraction (ExtrOcamlBasic), harness and generators, LP64 with signed plain char. Modelled not verified: the C++ "
               "and the preprocessor expansions themselves; CHECK_EQUAL is modelled for integer operands only (user types with their own operator!= "
               "are outside the model); failure texts are C14's subject. Flocq brings the stdlib axioms classic, functional_extensionality_dep, "
